@@ -1190,6 +1190,11 @@ class Exec(object):
             if b:
                 return b
             return None
+        m = re.fullmatch(r'(?:.*::)?<impl (\w+)(?:<.*>)?>::(\w+)', c)
+        if m:
+            b = p.find_inherent(m.group(1), m.group(2))
+            if b:
+                return b
         segs = c.split('::')
         if len(segs) >= 2:
             ty = re.sub(r'<.*', '', segs[-2])
